@@ -125,6 +125,15 @@ def canon(spec):
         else:
             a = np.frombuffer(bytes.fromhex(spec[3]), dtype=np.dtype(np_descr(spec[1]))).reshape(spec[2])
         return ['ndarray', _dtype_key(a.dtype), list(a.shape), a.tobytes().hex()]
+    if k == 'sub':
+        # an instance of a subclass is another value than the base-class instance with the same content; an OrderedDict is
+        # compared in order, the other mappings / sets are not; an attribute (cls "X:tag") is part of the value
+        cls, inner = spec[1], spec[2]
+        if cls.startswith('np.') and inner[0] == 'leaf':
+            return ['leaf', '%s(%s)' % (cls, inner[1])]
+        if cls == 'OrderedDict':
+            return ['sub', cls, [[canon(a), canon(b)] for a, b in inner[1]]]
+        return ['sub', cls, canon(inner)]
     if k == 'getitem':
         return ['getitem', canon(spec[1]), canon(spec[2])]
     if k == 'iter':
@@ -384,8 +393,44 @@ def exempt_family(ck):
     return out
 
 
+def subclass_values():
+    """for every type hash_update dispatches on (and the scalar types): the same content as an instance of the base class and of
+    several subclasses (std-lib, numpy, user-defined with and without attributes); mappings also in another insertion order"""
+    ab = [[L("'a'"), L('1')], [L("'b'"), L('2')]]
+    out = []
+    for items in (ab, ab[::-1], ab[:1], [[L("'a'"), L('2')], [L("'b'"), L('1')]], []):
+        d = ['dict', items]
+        out.append(d)
+        out += [['sub', c, d] for c in ('OrderedDict', 'Counter', 'defaultdict_int', 'defaultdict_list', 'defaultdict_none', 'MyDict',
+                                        'MyDictAttr:1', 'MyDictAttr:2')]
+    for xs in ([L('1'), L('2')], [L('2'), L('1')], []):
+        out += [['list', xs], ['tuple', xs], ['set', xs], ['frozenset', xs]]
+        out += [['sub', c, ['list', xs]] for c in ('MyList', 'MyListAttr:1', 'MyListAttr:2', 'deque')]
+        out += [['sub', c, ['tuple', xs]] for c in ('MyTuple',) + (('Point', 'Pair') if len(xs) == 2 else ())]
+        out += [['sub', 'MySet', ['set', xs]], ['sub', 'MyFrozenset', ['frozenset', xs]]]
+    for e, cs in (("'ab'", ('MyStr', 'np.str_')), ("b'ab'", ('MyBytes', 'np.bytes_')), ('1', ('MyInt', 'Colour', 'np.int64')),
+                  ('1.5', ('MyFloat', 'np.float64'))):
+        out.append(L(e))
+        out += [['sub', c, L(e)] for c in cs]
+    for a in (ARR('int32', [2, 2], [1, 2, 3, 4]), ARR('float64', [2], [0.5, 1.5]),
+              ['rawarray', [['x', '<i4'], ['y', '<f4']], [2], '000102030405060708090a0b0c0d0e0f']):
+        out.append(a)
+        out += [['sub', c, a] for c in ('MyArr', 'recarray', 'masked', 'masked1')]
+    return out
+
+
+def subclass_family(ck):
+    """each of those values as a positional, keyword and nested argument"""
+    out = []
+    for v in subclass_values():
+        out += [T('f', [v]), T('f', [], [('a', v)]), T('f', [['list', [v]]]), T('f', [['tuple', [v, L('1')]]]),
+                T('f', [['dict', [[L("'k'"), v]]]]), T('g', [L('0'), v])]
+    return out
+
+
 def families(ck):
-    fams = [('arrays', array_family(ck)), ('chains', chain_family(ck)), ('containers', mixed_family(ck)), ('exempt', exempt_family(ck))]
+    fams = [('arrays', array_family(ck)), ('chains', chain_family(ck)), ('containers', mixed_family(ck)), ('exempt', exempt_family(ck)),
+            ('subclasses', subclass_family(ck))]
     out = []
     for name, specs in fams:
         ck.count('family:' + name, len(specs))
@@ -504,6 +549,7 @@ def run(ck):
 
 
 def e2e_probes():
+    import collections
     import numpy as np
     import jug
     import jug.task
@@ -523,6 +569,11 @@ def e2e_probes():
          lambda: Task(f, np.zeros(2, dtype=[('y', '<i4'), ('x', '<f4')])), None),
         ('record field types', lambda: Task(f, np.zeros(2, dtype=[('x', '<i4'), ('y', '<f4')])),
          lambda: Task(f, np.zeros(2, dtype=[('x', '<f4'), ('y', '<i4')])), None),
+        ('mapping type', lambda: Task(f, {'a': 1}), lambda: Task(f, collections.Counter(a=1)), None),
+        ('OrderedDict order', lambda: Task(f, collections.OrderedDict([('a', 1), ('b', 2)])),
+         lambda: Task(f, collections.OrderedDict([('b', 2), ('a', 1)])), None),
+        ('default factory', lambda: Task(f, x=collections.defaultdict(int, a=1)), lambda: Task(f, x=collections.defaultdict(list, a=1)), None),
+        ('list subclass', lambda: Task(f, [1, 2]), lambda: Task(f, collections.UserList([1, 2])), None),
         ('byte order', lambda: Task(f, np.zeros(2, dtype='<i4')), lambda: Task(f, np.zeros(2, dtype='>i4')), None),
         ('tasklet chain, inner operation', lambda: Task(f, Task(f, 0)[0][1]), lambda: Task(f, Task(f, 0)[1][1]), None),
         ('tasklet chain, length', lambda: Task(f, Task(f, 0)[1][1]), lambda: Task(f, Task(f, 0)[1]), None),
